@@ -188,15 +188,28 @@ def gen_history(r, maxops, thorough):
             # (for a crafted body the stored index decides; guess the common case)
             if j < len(fds):
                 sim.hnd.append(fds[j])
-        elif k < 0.88 and hs:
+        elif k < 0.89 and bs:
+            # the dynamic Param API: get_param over leading params / unmarshall_all
+            b = r.choice(bs)
+            fds = sim.bods[b]["fds"]
+            sl = sim.bods[b]["slots"]
+            if r.random() < 0.7:
+                kk = sl if r.random() < 0.6 else r.randrange(0, sl + 1)
+                push("G%d:%d" % (b, kk))
+            else:
+                kk = sl
+                push("M%d" % b)
+            for j in range(min(kk, len(fds))):     # (a guess; a crafted body may fail as a whole)
+                sim.hnd.append(fds[j])
+        elif k < 0.915 and hs:
             h = r.choice(hs)
             push("C%d" % h); sim.hnd.append(sim.hnd[h])
-        elif k < 0.90 and hs:
+        elif k < 0.93 and hs:
             h = r.choice(hs)
             push("Y%d" % h)
             if not sim.taken[sim.hnd[h]]:
                 sim.hnd.append(sim.new_obj())
-        elif k < 0.94 and hs:
+        elif k < 0.96 and hs:
             h = r.choice(hs)
             push("T%d" % h)
             o = sim.hnd[h]
@@ -204,7 +217,7 @@ def gen_history(r, maxops, thorough):
             if not sim.taken[o]:
                 sim.taken[o] = True
                 sim.cfds.append(True)
-        elif k < 0.98 and hs:
+        elif k < 0.99 and hs:
             h = r.choice(hs)
             push("X%d" % h); sim.hnd[h] = None
         elif cs and r.random() < 0.5:
@@ -244,6 +257,9 @@ def apply_orders(line, impl):
             if sorted(ordv) == list(range(len(its))):
                 its = [its[i] for i in ordv]
             op = "P%s:%s:%s" % (b, shape, ",".join(its) or "-")
+        if op[0] == "G" and io.get("slots") is not None:
+            # get_param works on whole top-level params: the harness rounded k down to a param boundary
+            op = "G%s:%d" % (op[1:].split(":")[0], io["slots"])
         out.append(op)
     return ";".join(out)
 
@@ -423,6 +439,36 @@ def impl_violations(line, impl):
                     bad.append(where + "the read returned descriptor %s, the message holds %s at index %s" % (s["hnd"][int(res[2:])], pb["fds"][int(idx)], idx))
             if opn != popn:
                 bad.append(where + "reading a descriptor changed the descriptor table")
+        if kind in "GM" and res != "invalid":
+            if kind == "G":
+                b, kk = op[1:].split(":")
+                b, kk = int(b), int(kk)
+            else:
+                b = int(op[1:])
+                kk = len(prev["bods"][b]["idx"])
+            pb = prev["bods"][b]
+            idxs = pb["idx"][:kk]
+            what = "get_param" if kind == "G" else "unmarshall_all"
+            if all(i < len(pb["fds"]) for i in idxs):
+                if not res.startswith("hs:"):
+                    bad.append(where + "%s: every stored index %s is within the %d descriptors of the message but the dynamic API failed: %s" % (what, idxs, len(pb["fds"]), s.get("detail")))
+                else:
+                    hs = [int(x) for x in res[3:].split(",") if x != ""]
+                    got = [s["hnd"][h] for h in hs]
+                    want = [pb["fds"][i] for i in idxs]
+                    if got != want:
+                        bad.append(where + "%s returned descriptors %s, the message holds %s at the stored indices %s" % (what, got, want, idxs))
+                    if s["bods"][b] != pb:
+                        bad.append(where + "%s changed the message's own descriptor list" % what)
+            else:
+                if res != "err":
+                    bad.append(where + "%s: a stored index in %s is beyond the %d descriptors of the message but the call succeeded" % (what, idxs, len(pb["fds"])))
+                elif kind == "G" and (s["bods"][b] != pb or s["hnd"] != prev["hnd"]):
+                    bad.append(where + "a failed get_param changed the message or the caller's variables")
+            if not (kind == "M" and res == "err") and opn != popn:
+                bad.append(where + "%s changed the descriptor table: before %s after %s" % (what, sorted(popn), sorted(opn)))
+            if not (kind == "M" and res == "err") and s["closes"]:
+                bad.append(where + "%s closed descriptors %s" % (what, s["closes"]))
         if kind == "A" and res != "invalid":
             b, j = op[1:].split(":")
             pb = prev["bods"][int(b)]
@@ -598,7 +644,7 @@ class Runner:
             ctx.count("outcome:unreadable")
             return
         names = {"O": "open", "K": "caller_close", "W": "wrap", "B": "new_body", "P": "push", "R": "reset", "D": "drop_body",
-                 "S": "send", "I": "inject", "V": "recv", "U": "unmarshal", "A": "parse", "C": "clone", "Y": "dup", "T": "take",
+                 "S": "send", "I": "inject", "V": "recv", "U": "unmarshal", "A": "parse", "G": "get_param", "M": "unmarshall_all", "C": "clone", "Y": "dup", "T": "take",
                  "X": "drop_handle"}
         maxfd = 0
         for op, s in zip(ops, impl["ops"]):
@@ -686,6 +732,11 @@ def coq_term(line):
         elif k == "A":
             b, j = a.split(":")
             out.append("Parse %s%%nat %s%%nat" % (b, j))
+        elif k == "G":
+            b, j = a.split(":")
+            out.append("Decode %s%%nat %s%%nat" % (b, j))
+        elif k == "M":
+            out.append("DecodeOwned %s%%nat" % a)
         else:
             name = {"K": "CallerClose", "W": "Wrap", "R": "Reset", "D": "DropBody", "C": "Clone", "Y": "DupH", "T": "Take", "X": "DropHandle"}[k]
             out.append("%s %s%%nat" % (name, a))
@@ -810,7 +861,7 @@ def setup(ctx):
                 "fail), reset, drop, send (library -> raw peer socket with write_once(Nonblock) + resume; of the sends that carry descriptors 35% with "
                 "the send buffer shrunk and a 40 kB header so that the first write ends inside the header, 15% sized so that it ends exactly at "
                 "the header/body boundary; the peer keeps every descriptor of every recvmsg), inject (raw peer crafts a message with chosen indices), receive "
-                "(raw peer -> library), read_unixfd with in-range / out-of-range indices, parse a stored slot, clone, dup, take, drop; 7% of "
+                "(raw peer -> library), read_unixfd with in-range / out-of-range indices, parse a stored slot (typed API incl. Variant::get), the dynamic Param API (parser().get_param() over leading params, MarshalledMessage::unmarshall_all; descriptors at top level and inside arrays / structs / dict entries / variants; the decoded handles and the message are later dropped in either order), clone, dup, take, drop; 7% of "
                 "histories contain one push of 11..253 descriptors. After EVERY operation /proc/self/fd + fstat are compared with the model's "
                 "table up to renaming. distinct = distinct history text (after HashMap order feedback); non-trivial = at least one push succeeded")
     ctx.trusted = [
